@@ -28,9 +28,9 @@ Definition spec_ok (c : case) : bool := obs_eqb (run_ref (c_prog c)) (c_obs_out 
 (* known finding 1: a `continue name` that sits directly in the block called name *)
 Fixpoint direct_cont_stmt (cur : name) (s : stmt) : bool :=
   match s with
-  | If _ b => direct_cont_block NIf b
-  | Foreach _ _ b => direct_cont_block NForeach b
-  | While _ _ b => direct_cont_block NWhile b
+  | Branch k _ b d => direct_cont_block (branch_name k) b || direct_cont_block (branch_name k) d
+  | Loop k _ _ b => direct_cont_block (loop_name k) b
+  | Try pipe b => direct_cont_block (try_name pipe) b
   | Call f b => direct_cont_block (NFunc f) b
   | Continue nm => name_eqb cur nm
   | _ => false
@@ -38,4 +38,19 @@ Fixpoint direct_cont_stmt (cur : name) (s : stmt) : bool :=
 with direct_cont_block (cur : name) (b : block) : bool :=
   match b with BNil => false | BCons s b' => direct_cont_stmt cur s || direct_cont_block cur b' end.
 
-Definition classify (c : case) : N := if direct_cont_block (NFunc 0) (c_prog c) then 1 else 0.
+(* known finding 2: a `continue while` whose target is a one-block while *)
+Fixpoint cont_w1_stmt (encl : list (name * bool)) (s : stmt) : bool :=
+  match s with
+  | Branch k _ b d => cont_w1_block ((branch_name k, false) :: encl) b || cont_w1_block ((branch_name k, false) :: encl) d
+  | Loop k _ _ b => cont_w1_block ((loop_name k, match k with LWhile1 => true | _ => false end) :: encl) b
+  | Try pipe b => cont_w1_block ((try_name pipe, false) :: encl) b
+  | Call f b => cont_w1_block [(NFunc f, false)] b
+  | Continue nm => target_is_while1 nm encl
+  | _ => false
+  end
+with cont_w1_block (encl : list (name * bool)) (b : block) : bool :=
+  match b with BNil => false | BCons s b' => cont_w1_stmt encl s || cont_w1_block encl b' end.
+
+Definition classify (c : case) : N :=
+  if direct_cont_block (NFunc 0) (c_prog c) then 1
+  else if cont_w1_block [(NFunc 0, false)] (c_prog c) then 2 else 0.
